@@ -14,6 +14,9 @@ use crate::vm::state::{MAGICAL_DUMP_VAR, State};
 use crate::{Context, Tera};
 
 const MAX_COMPONENT_RECURSION_DEPTH: usize = 20;
+/// Includes, components, blocks and `super()` all interpret a chunk recursively: we cap how deep
+/// that can go so templates that end up rendering themselves error instead of overflowing the stack
+const MAX_RENDER_DEPTH: usize = 128;
 
 pub(crate) struct VirtualMachine<'tera> {
     tera: &'tera Tera,
@@ -57,6 +60,11 @@ impl<'tera> VirtualMachine<'tera> {
         output: &mut impl Write,
     ) -> TeraResult<()> {
         let mut ip = 0;
+        if state.depth > MAX_RENDER_DEPTH {
+            return Err(Error::message(
+                "Maximum render recursion depth exceeded: a template, block or component is likely rendering itself.",
+            ));
+        }
 
         macro_rules! rendering_error {
             ($msg:expr,$span_range:expr) => {{
@@ -169,7 +177,7 @@ impl<'tera> VirtualMachine<'tera> {
                     Err(msg) => rendering_error!(msg, current_span),
                 };
 
-                let val = match self.render_component(&component_chunk, context) {
+                let val = match self.render_component(&component_chunk, context, state.depth) {
                     Ok(v) => v,
                     Err(mut e) => {
                         if let ErrorKind::RenderingError(ref mut report) = e.kind {
@@ -498,7 +506,9 @@ impl<'tera> VirtualMachine<'tera> {
                         state.blocks[pos].2 = level + 1;
                         let mut super_output = Vec::with_capacity(128);
                         let old_capture_buffers = std::mem::take(&mut state.capture_buffers);
+                        state.depth += 1;
                         let res = self.interpret(state, &mut super_output);
+                        state.depth -= 1;
                         state.capture_buffers = old_capture_buffers;
                         state.chunk = old_chunk;
                         state.blocks[pos].2 = level;
@@ -576,6 +586,7 @@ impl<'tera> VirtualMachine<'tera> {
                     let old_chunk = state.chunk.replace(block_chunk);
                     state.blocks.push((block_name, block_lineage, 0));
                     let old_block_name = state.current_block_name.replace(block_name);
+                    state.depth += 1;
                     let res = if state.capture_block == Some(block_name.as_str()) {
                         let mut buf = Vec::with_capacity(256);
                         // The block might be inside a filter section/set block/component body:
@@ -591,6 +602,7 @@ impl<'tera> VirtualMachine<'tera> {
                     } else {
                         self.interpret(state, output)
                     };
+                    state.depth -= 1;
                     state.chunk = old_chunk;
                     state.current_block_name = old_block_name;
                     state.blocks.pop();
@@ -950,7 +962,12 @@ impl<'tera> VirtualMachine<'tera> {
         Error::new(ErrorKind::RenderingError(Box::new(err)))
     }
 
-    fn render_component(&self, chunk: &Chunk, context: Context) -> TeraResult<String> {
+    fn render_component(
+        &self,
+        chunk: &Chunk,
+        context: Context,
+        parent_depth: usize,
+    ) -> TeraResult<String> {
         let depth = self.component_recursion_depth + 1;
         if depth > MAX_COMPONENT_RECURSION_DEPTH {
             return Err(Error::message(
@@ -966,6 +983,7 @@ impl<'tera> VirtualMachine<'tera> {
 
         let mut state = State::new_with_chunk(&context, chunk);
         state.filters = Some(&self.tera.filters);
+        state.depth = parent_depth + 1;
         let mut output = Vec::with_capacity(1024);
         vm.interpret(&mut state, &mut output)?;
 
@@ -990,6 +1008,7 @@ impl<'tera> VirtualMachine<'tera> {
         let mut include_state = State::new_with_chunk(state.context, &tpl.chunk);
         include_state.include_parent = Some(state);
         include_state.filters = Some(&self.tera.filters);
+        include_state.depth = state.depth + 1;
         vm.interpret(&mut include_state, output)?;
         Ok(())
     }
